@@ -574,7 +574,8 @@ impl PageLoader {
         let bucket = loop {
             match load.probe_sequence.next(&self.meta_map) {
                 ProbeResult::Tombstone(_) => continue,
-                ProbeResult::Empty(_) => return false,
+                // Every bucket the sequence can reach has been seen: the page is not stored.
+                ProbeResult::Empty(_) | ProbeResult::Exhausted => return false,
                 ProbeResult::PossibleHit(bucket) => break BucketIndex(bucket),
             }
         };
@@ -674,6 +675,8 @@ fn allocate_bucket(
                 meta_map.set_full(bucket as usize, probe_seq.hash);
                 return Some(BucketIndex(bucket));
             }
+            // No reachable bucket is free.
+            ProbeResult::Exhausted => return None,
         }
     }
 }
@@ -699,6 +702,9 @@ enum ProbeResult {
     PossibleHit(u64),
     Empty(u64),
     Tombstone(u64),
+    // The whole orbit of the probe sequence has been visited without a hit, an empty bucket or
+    // (for the caller that stops there) a tombstone.
+    Exhausted,
 }
 
 impl ProbeSequence {
@@ -714,6 +720,15 @@ impl ProbeSequence {
     // probe until there is a possible hit or an empty bucket is found
     fn next(&mut self, meta_map: &MetaMap) -> ProbeResult {
         loop {
+            // The triangular numbers modulo `n` repeat with period `2n`
+            // (T(k + 2n) - T(k) = n * (2k + 2n + 1)), so after `2n` steps every bucket this
+            // sequence can ever reach has been visited. Without this bound a lookup of an absent
+            // page spins forever once no reachable bucket is empty any more: tombstones are never
+            // turned back into empty buckets.
+            if self.step > 2 * meta_map.len() as u64 {
+                return ProbeResult::Exhausted;
+            }
+
             // Triangular probing
             self.bucket += self.step;
             self.step += 1;
